@@ -25,8 +25,8 @@ Inductive cpc :=
 | CSSwDec (v : Z)                      (* 661  DEFER send_waiters.fetch_sub(1)                *)
 | CSLdIdler (v : Z)                    (* 754  cur_idler = idler.load(seq_cst)                *)
 | CSLdPend (v cur : Z)                 (* 760  p = pending.load(acquire)                      *)
-| CSLdFresh (v cur p : Z)              (* 763  fresh = idler.load(relaxed)                    *)
-| CSCasPend (v cur p : Z)              (* 768  pending.compare_exchange_weak(p, p+1)          *)
+| CSLdFresh (v cur pd : Z)             (* 763  fresh = idler.load(relaxed)                    *)
+| CSCasPend (v cur pd : Z)             (* 768  pending.compare_exchange_weak(p, p+1)          *)
 | CSSignal (v : Z)                     (* 771  queue_sem.signal(1)                            *)
 (* recv *)
 | CRPop1                               (* 779  if (pop(x))                                    *)
